@@ -15,6 +15,7 @@ import (
 	"google.golang.org/protobuf/reflect/protoreflect"
 	"os"
 	"os/exec"
+	"sort"
 	"strings"
 	"time"
 
@@ -415,6 +416,107 @@ func init() {
 					}
 					r.State(fmt.Sprintf("patch-history|len=%d", len(seq)))
 					r.Nontrivial(strings.Join(hist, ";"))
+				}},
+				{Name: "argument-rebinding", N: len(c04RebindNames()), Note: "every implemented function of both tables at every accepted arity with its receiver and its arguments taken from environment variables: one compiled expression evaluated under bindings A, B, A, B' (B differs in every value, B' in the receiver only); each result equals that of an expression compiled for the occasion", Run: func(i int, r *core.Rec) {
+					name := c04RebindNames()[i]
+					fn := ftab.Table(true)[name]
+					sig, ok := n1[name]
+					if !ok {
+						sig, ok = documentedExt[name]
+					}
+					if !ok {
+						sig = specSig{recv: "Patient.name"}
+					}
+					copts := []fhirpath.CompileOption{compopts.WithExperimentalFuncs()}
+					in := []fhir.Resource{lib.Patient()}
+					// a literal operand becomes a variable when it is a single System value on its own
+					val := func(src string) (any, bool) {
+						if strings.ContainsAny(src, "%$") || strings.Contains(src, "Patient") {
+							return nil, false
+						}
+						res := lib.Run(src, nil, nil)
+						if !res.OK() || len(res.Coll) != 1 {
+							return nil, false
+						}
+						switch res.Coll[0].(type) {
+						case system.String, system.Integer, system.Decimal, system.Boolean:
+							return res.Coll[0], true
+						}
+						return nil, false
+					}
+					others := func(v any) []any {
+						switch x := v.(type) {
+						case system.String:
+							last := "Z"
+							if len(x) > 0 {
+								last = string(x[len(x)-1:]) + "Z"
+							}
+							return []any{system.String(last), system.String("."), system.String(""), system.String("abc"), system.String("a")}
+						case system.Integer:
+							return []any{x + 1, system.Integer(0), system.Integer(-1), system.Integer(5), system.Integer(2)}
+						case system.Decimal:
+							return []any{system.MustParseDecimal("7.25"), system.MustParseDecimal("0.0"), system.MustParseDecimal("-1.5"), system.MustParseDecimal("2.0"), system.MustParseDecimal("0.5")}
+						case system.Boolean:
+							return []any{!x, !x, x, !x, x}
+						}
+						return []any{v, v, v, v, v}
+					}
+					for n := fn.Min; n <= fn.Max && n <= 4; n++ {
+						args := fillArgs(sig, n)
+						bindA := map[string]any{}
+						alts := map[string][]any{}
+						recv := sig.recv
+						if v, ok := val(strings.Trim(recv, "()")); ok {
+							bindA["r"], alts["r"] = v, others(v)
+							recv = "%r"
+						}
+						for k := range args {
+							if v, ok := val(args[k]); ok {
+								nm := fmt.Sprintf("a%d", k)
+								bindA[nm], alts[nm] = v, others(v)
+								args[k] = "%" + nm
+							}
+						}
+						if len(bindA) == 0 {
+							continue
+						}
+						// the sequence of bindings: A, then for every alternative k: all variables changed, A again, the receiver
+						// alone changed, each argument alone changed
+						seq := []map[string]any{bindA}
+						for k := 0; k < 5; k++ {
+							all := map[string]any{}
+							for nm := range bindA {
+								all[nm] = alts[nm][k]
+							}
+							seq = append(seq, all, bindA)
+							for nm := range bindA {
+								one := map[string]any{}
+								for x, v := range bindA {
+									one[x] = v
+								}
+								one[nm] = alts[nm][k]
+								seq = append(seq, one)
+							}
+							seq = append(seq, bindA)
+						}
+						src := callSrc(recv, name, args)
+						shared := lib.Compile(src, copts...)
+						if shared.CompileErr != nil || shared.Panic != nil {
+							continue
+						}
+						for step, b := range seq {
+							got := lib.EvalOpts(shared, in, lib.EnvOpts(b)...)
+							want := lib.Run(src, in, b, copts...)
+							r.Eval()
+							r.Eval()
+							r.State("argument-rebinding|" + name)
+							r.Nontrivial(src, fmt.Sprint(step), got.Class())
+							if got.String() != want.String() {
+								r.Fail(fmt.Sprintf("argument-rebinding|%s|arity=%d|result-of-an-earlier-binding", name, n), core.W{"src": src, "evaluation": step + 1, "binding": fmt.Sprint(b), "got": core.Short(got.String(), 200), "freshly_compiled": core.Short(want.String(), 200)})
+								break
+							}
+						}
+					}
 				}},
 				{Name: "repeated-evaluations", N: len(c04RepeatPrograms), Note: fmt.Sprintf("%d programs over collections of 16..40 items (strings, integers, decimals, elements, with duplicates) evaluated 8 times on one compiled expression and on freshly compiled ones: the same items in the same order every time", len(c04RepeatPrograms)), Run: func(i int, r *core.Rec) {
 					src := c04RepeatPrograms[i]
@@ -996,6 +1098,21 @@ func c04PatchOps() []c04PatchOp {
 		{"Add id on contact name of Organization", "contact[0].name", org, add("text", func() fhir.Base { return fhir.String("t") })},
 		{"Add text on contact name of Patient", "contact[0].name", patient, add("text", func() fhir.Base { return fhir.String("t") })},
 	}
+}
+
+var c04RebindList []string
+
+// c04RebindNames: the implemented functions of both tables, in name order
+func c04RebindNames() []string {
+	if c04RebindList == nil {
+		for k, e := range ftab.Table(true) {
+			if e.Impl != ftab.Placeholder {
+				c04RebindList = append(c04RebindList, k)
+			}
+		}
+		sort.Strings(c04RebindList)
+	}
+	return c04RebindList
 }
 
 var c04RepeatPrograms = []string{
